@@ -163,9 +163,13 @@ CHECKS = {
                 "same path placed inside channel directories, with the window compared exactly; the writer's finalizing "
                 "rename (taken from real lock-step recordings) must arrive as a creation. The bounded grammar is sampled, "
                 "not exhausted - exhaustive enumeration would be the neighbouring technique.",
-        "note": "the filter is a stateless function; the simulation contributes the realistic event source and agreement "
-                "between two real components. Upper-case variants and paths deeper than the format's depth are outside "
-                "the quantifier and not generated. watchdog Observer/inotify are stubbed.",
+        "note": "the filter is stateless by contract; the simulation contributes the realistic event source, agreement "
+                "between two real components, and - every fifth run - a thread tier: the thread replaying existing files "
+                "(dispatch without window test, as DigitalRFMirror.start() does) and the live-event thread run on one "
+                "handler object under a seeded baton scheduler with the line events of watchdog_drf.py as pre-emption "
+                "points; every dispatch must still get its schedule-independent verdict. Upper-case variants and paths "
+                "deeper than the format's depth are outside the quantifier and not generated. watchdog Observer/inotify "
+                "are stubbed; the handler is also built under seeded non-UTC process time zones.",
     },
     "C16": {
         "engine": "evsim16", "level": "exploration", "design_ref": "DESIGN.md 5/C16",
